@@ -663,7 +663,26 @@ ITEM_RE = re.compile(r'^\s*(?:pub(?:\([^)]*\))?\s+)?(?:open\s+|closed\s+)?(?:bro
 
 
 def generate(template_path, repo, out_path):
-    """Returns meta dict: units, items (line ranges), rewrite log."""
+    """Returns meta dict: units, items (line ranges), rewrite log. The text as written is tried first; if an anchor is lost
+    the extraction is retried once on the canonical layout of the sources (extract.read_src): a re-formatted tree is decided."""
+    try:
+        extract.CANON = False
+        return _generate(template_path, repo, out_path)
+    except (Undecided, extract.LostAnchor) as first:
+        if not extract.rustfmt_available():
+            raise
+        extract.CANON = True
+        try:
+            meta = _generate(template_path, repo, out_path)
+        except (Undecided, extract.LostAnchor):
+            raise first
+        finally:
+            extract.CANON = False
+        meta['log'].insert(0, f"CANONICAL LAYOUT: an anchor was lost on the text as written ({str(first)[:200]}); every source file was passed through `rustfmt --edition 2021` (default configuration: layout only) before extraction, and all anchors were found on that text")
+        return meta
+
+
+def _generate(template_path, repo, out_path):
     parts = parse_template(template_path)
     out_lines = []
     units = []
@@ -715,7 +734,9 @@ def generate(template_path, repo, out_path):
             item = extract.extract_fn(repo, u['file'], u['within'], u['fn'])
             if extract.norm(u['sig']) != item.sig_norm():
                 raise Undecided(f"unit {u['id']}: signature drift (lost anchor): repo has `{item.sig_norm()}`, contract written for `{extract.norm(u['sig'])}`")
-            ibody = item.body
+            # full-line comments of the extracted body are dropped (replaced by empty lines) before any anchor or rewrite is
+            # matched: a comment added between two statements must not lose an anchor. Trailing comments after code stay.
+            ibody = '\n'.join('' if l.lstrip().startswith('//') else l for l in item.body.split('\n'))
             if u.get('block'):
                 # `//@ block <header> :: <tail>`: the unit is ONE block statement of the function (the unique statement whose header
                 # line is <header>, with its balanced `{ .. }`), followed by <tail>; everything else of the function is dropped.
